@@ -65,10 +65,10 @@ type c11Family struct {
 }
 
 type c11World struct {
-	Family   string               `json:"family"`
+	Family   string              `json:"family"`
 	Tables   map[string][]c11Row `json:"tables"`
-	unscoped bool                 // the operation runs under db.Unscoped(): the soft-delete scope is "every row"
-	idx      *c11Index            // optional hash index for the reference join (scale worlds, see c11_scale.go); nil = nested loops
+	unscoped bool                // the operation runs under db.Unscoped(): the soft-delete scope is "every row"
+	idx      *c11Index           // optional hash index for the reference join (scale worlds, see c11_scale.go); nil = nested loops
 }
 
 var c11Families = map[string]*c11Family{}
@@ -327,11 +327,11 @@ func (w c11World) collides(f *c11Family) bool {
 
 // one node of the load tree: relation Rel of the enclosing model, loaded by Preload or by (Inner)Joins
 type c11Node struct {
-	Rel      string     `json:"rel"`
-	Join     bool       `json:"join,omitempty"`
-	Inner    bool       `json:"inner,omitempty"`
-	Cond     c11Cond    `json:"cond"`
-	Explicit bool       `json:"explicit,omitempty"` // interior preload node without condition: call Preload(path) itself too
+	Rel      string  `json:"rel"`
+	Join     bool    `json:"join,omitempty"`
+	Inner    bool    `json:"inner,omitempty"`
+	Cond     c11Cond `json:"cond"`
+	Explicit bool    `json:"explicit,omitempty"` // interior preload node without condition: call Preload(path) itself too
 	// join nodes: column list of the joined relation, given on the join's handle as Select(...) / Omit(...) (db or Go field
 	// names); the row number n always stays selected, so which child was attached remains observable
 	Sel  []string   `json:"sel,omitempty"`
